@@ -1654,7 +1654,9 @@ def malform(rng, gen):
     bvs = [(n, e.ty[1]) for n, e in gen.scope.items() if e.kind == "sym" and e.ty[0] == "V"]
     if k == "unknown-operator":
         op = r.choice(["foo", "implies", "bvadd2", "iff", "==", "bvrol", "mod2", "str.lenn"])
-        bad = ["and", bt, [op, bt, bt]]
+        if op in gen.scope or op in gen.global_types:
+            op = op + "_u"          # (foo is a name of the pool: it may be a declared function of the script)
+        bad =["and", bt, [op, bt, bt]]
     elif k == "undeclared-symbol":
         nm = r.choice(["undeclared", "zz", "x!", "True", "FALSE", "nil"])
         if nm in gen.scope:
@@ -1715,7 +1717,10 @@ def malform(rng, gen):
         bad = r.choice(["1", "1.5", "#b01", '"s"', ["+", "1", "2"]] + ([gen.symtok(ints[0])] if ints else []))
         return k, render_script(r, cmds + [["assert", bad]], fancy=False)
     elif k == "undeclared-sort":
-        return k, render_script(r, cmds + [["declare-fun", "zz!", [], r.choice(["Foo", "int", ["Array", "Int"],
+        nosort = "Foo"
+        while nosort in gen.sorts or nosort in gen.sort_alias:      # (declare-sort capitalises the names of the pool: Foo)
+            nosort += "_u"
+        return k, render_script(r, cmds + [["declare-fun", "zz!", [], r.choice([nosort, "int", ["Array", "Int"],
                                                                                      ["_", "BitVec"], ["_", "BitVec", "x"],
                                                                                      ["List", "Int"]])]], fancy=False)
     elif k == "unknown-indexed":
@@ -2221,6 +2226,22 @@ CORPUS_COUNTS = {'fuzzed/AUFLIA.smt2.bz2': 16,
 
 # ------------------------------------------------------------------------------------------
 MAX_TREE = 150000
+_CALLS = [0]
+
+
+def _trim_global_caches():
+    """`f.get_free_variables()`, `f.get_type()`, ... go through the oracles of pySMT's GLOBAL environment, whose memo tables
+    are keyed by FNodes hashed by their per-environment node id: filled with the terms of thousands of environments they
+    degenerate into collision chains (the time per script grows linearly with the number of scripts).  The tables are only
+    caches: they are emptied every few scripts."""
+    _CALLS[0] += 1
+    if _CALLS[0] % 20:
+        return
+    from pysmt.environment import get_env
+    for v in vars(get_env()).values():
+        memo = getattr(v, "memoization", None)
+        if isinstance(memo, dict):
+            memo.clear()
 
 
 def _tree_size(f):
@@ -2245,6 +2266,7 @@ def check_script(ctx, g, text, ig, lines, meta, stream, std_always=False, n_inte
     """run the implementation on `text`; queue semantic comparisons.
     std_always: consult the standard reader also when the script holds forms the parser may reject (it is accepted here)"""
     K_TEXTS.append((stream, text))
+    _trim_global_caches()
     res = run_impl(text)
     nontriv = text
     ctx.case(nontriv)
